@@ -270,7 +270,7 @@ def gen_history(rnd, pool, idx):
     out = []
     if k < 0.12:
         # one thematic group (date-order disturbers+victims, or overlapping zone spellings), calls in random order
-        grp = rnd.choice(["order", "tz", "plain", "relloc", "cal"])
+        grp = rnd.choice(["order", "tz", "plain", "relloc", "cal", "searchsel"])
         sub = [c for c in pool if c.get("grp") == grp]
         out = [rnd.choice(sub) for _ in range(n)]
     elif k < 0.3:
